@@ -53,7 +53,15 @@ func c02Profiles(tier Tier) []*explore.Profile {
 	}
 	orc := []explore.Oracle{&supplyOracle{property: "C02"}}
 	supply := &explore.Profile{
-		Name: "supply", EnvCfg: ledgerEnv(2), Seeds: seedsOf("fung", "sft", "frozen", "aliased"), Depth: depth, Deadline: tierDeadline(tier), Oracles: orc,
+		Name: "supply", EnvCfg: ledgerEnv(2), Depth: depth, Deadline: tierDeadline(tier), Oracles: orc,
+		Seeds: func(env *world.Env) []explore.SeedState {
+			out := seedsOf("fung", "sft", "frozen", "aliased")(env)
+			// a contract that holds the fungible token (received with an attached call), so that
+			// its own burns are within reach
+			b := uni.SeedBuilder(env, "fung")
+			b.Must(uni.ESDTTransfer(uni.A0, uni.S0, uni.F, 2, []byte("f")))
+			return append(out, explore.SeedState{Name: "fung+contract-holder", W: b.W, Legs: b.Legs, Failed: b.Failed})
+		},
 		Menu: func(w *world.World) []world.Action {
 			acts := supplyMenu(w, o)
 			acts = append(acts, freezeMenu(w, o, true)...)
